@@ -17,8 +17,11 @@ import time
 from . import build
 
 VERIF = build.VERIF
-EVID = os.path.join(VERIF, "evidence")
-FOUND = os.path.join(VERIF, "replays", "found")
+# Runs against a scratch copy (VERIF_REPO / VERIF_BUILD set: mutant and seeded-change judging) keep their
+# evidence and found replays inside their own build directory, so they never disturb /verif/evidence.
+_SCRATCH = "VERIF_BUILD" in os.environ or "VERIF_REPO" in os.environ
+EVID = os.path.join(build.BUILD, "evidence") if _SCRATCH else os.path.join(VERIF, "evidence")
+FOUND = os.path.join(build.BUILD, "found") if _SCRATCH else os.path.join(VERIF, "replays", "found")
 REGRESS = os.path.join(VERIF, "replays", "regress")
 NETS = os.path.join(build.BUILD, "nets")
 NCPU = int(os.environ.get("VERIF_JOBS", "0") or 0) or os.cpu_count() or 4
